@@ -185,6 +185,11 @@ section S
 variable {F : Type} [Add F] [Sub F] [Mul F] [Div F] [Neg F] [LT F] [LE F] [BEq F]
   [DecidableLT F] [DecidableLE F] [FloatLike F]
 
+/-- what `update` returns for an input event: the input's error, otherwise `Ok(())` -/
+def updRetOf {α : Type} : Output α → UpdRet
+  | .error x => .error x
+  | .ok _ => .ok ()
+
 /-- what `get` returns after the history `evs` when the specification of the last run evaluates to `r`:
 nothing yet → absent; last event an error → that error; last event absent → absent; last event a sample → `r` -/
 def expectedGet (evs : List (Output (Quantity F))) (r : Option (Datum (Quantity F))) : Output (Quantity F) :=
@@ -431,7 +436,7 @@ theorem integral_panics_iff (chk : Bool) (evs : List (Output (Quantity F))) :
 /-- `update`'s return value: the error on an error event, `Ok(())` otherwise -/
 theorem integral_update_ret (chk : Bool) (s s' : DiS F) (e : Output (Quantity F)) (r : UpdRet)
     (h : Integral.step chk s e = .ok (s', r)) :
-    r = match e with | .error x => .error x | .ok _ => .ok () := by
+    r = updRetOf e := by
   match e with
   | .error x => simp only [Integral.step, Except.ok.injEq, Prod.mk.injEq] at h; exact h.2.symm
   | .ok none => simp only [Integral.step, Except.ok.injEq, Prod.mk.injEq] at h; exact h.2.symm
@@ -509,7 +514,7 @@ theorem derivative_panics_iff (chk : Bool) (evs : List (Output (Quantity F))) :
 
 theorem derivative_update_ret (chk : Bool) (s s' : DiS F) (e : Output (Quantity F)) (r : UpdRet)
     (h : Derivative.step chk s e = .ok (s', r)) :
-    r = match e with | .error x => .error x | .ok _ => .ok () := by
+    r = updRetOf e := by
   match e with
   | .error x => simp only [Derivative.step, Except.ok.injEq, Prod.mk.injEq] at h; exact h.2.symm
   | .ok none => simp only [Derivative.step, Except.ok.injEq, Prod.mk.injEq] at h; exact h.2.symm
@@ -1113,6 +1118,137 @@ theorem a2s_eq_spec (chk : Bool) (evs : List (Output (Quantity F))) (s : Option 
       cases pos with
       | none => exact ⟨none, rfl, rfl⟩
       | some x => exact ⟨_, rfl, rfl⟩
+
+theorem trapRunRev_some (chk : Bool) (o p : Datum (Quantity F)) (rest : List (Datum (Quantity F)))
+    (v : Option (Quantity F)) (h : trapRunRev chk (o :: p :: rest) = .ok v) : ∃ x, v = some x := by
+  rw [trapRunRev] at h
+  split at h
+  · cases h
+  · split at h
+    · cases h
+    · split at h
+      · cases h; exact ⟨_, rfl⟩
+      · split at h
+        · cases h
+        · cases h; exact ⟨_, rfl⟩
+
+theorem a2sPosRev_some (chk : Bool) (o p q : Datum (Quantity F)) (rest : List (Datum (Quantity F)))
+    (x : Option (Quantity F)) (h : a2sPosRev chk (o :: p :: q :: rest) = .ok x) : ∃ y, x = some y := by
+  rw [a2sPosRev] at h
+  split at h
+  · cases h
+  · split at h
+    · cases h
+    · next hv => obtain ⟨_, hx⟩ := trapRunRev_some chk p q rest _ hv; cases hx
+    · split at h
+      · cases h
+      · next hv => obtain ⟨_, hx⟩ := trapRunRev_some chk o p (q :: rest) _ hv; cases hx
+      · split at h
+        · cases h
+        · split at h
+          · cases h; exact ⟨_, rfl⟩
+          · split at h
+            · cases h
+            · cases h; exact ⟨_, rfl⟩
+
+/-- the specification is absent for fewer than three samples … -/
+theorem a2sSpec_short (chk : Bool) (run : List (Datum (Quantity F))) (r : Option (StateSpec F))
+    (hlen : run.length < 3) (h : a2sSpec chk run = .ok r) : r = none := by
+  unfold a2sSpec at h
+  rw [← List.length_reverse] at hlen
+  match hrr : run.reverse with
+  | [] => rw [hrr] at h; cases h; rfl
+  | [o] => rw [hrr] at h; cases h; rfl
+  | [o, p] =>
+    rw [hrr] at h
+    simp only [a2sSpecRev, a2sPosRev, trapRunRev] at h
+    split at h
+    · cases h
+    · cases h; rfl
+  | o :: p :: q :: rest => rw [hrr] at hlen; simp at hlen; omega
+
+/-- … and present from three samples on -/
+theorem a2sSpec_long (chk : Bool) (run : List (Datum (Quantity F))) (r : Option (StateSpec F))
+    (hlen : 3 ≤ run.length) (h : a2sSpec chk run = .ok r) : ∃ sp, r = some sp := by
+  unfold a2sSpec at h
+  rw [← List.length_reverse] at hlen
+  match hrr : run.reverse with
+  | [] => rw [hrr] at hlen; simp at hlen
+  | [o] => rw [hrr] at hlen; simp at hlen
+  | [o, p] => rw [hrr] at hlen; simp at hlen
+  | o :: p :: q :: rest =>
+    rw [hrr, a2sSpecRev] at h
+    split at h
+    · cases h
+    · next vel hv =>
+      obtain ⟨v, rfl⟩ := trapRunRev_some chk o p (q :: rest) _ hv
+      split at h
+      · cases h
+      · next pos hp =>
+        obtain ⟨x, rfl⟩ := a2sPosRev_some chk o p q rest _ hp
+        cases h; exact ⟨_, rfl⟩
+
+/-- the reported time is the newest sample's, the reported acceleration is the newest sample -/
+theorem a2sSpec_time_newest (chk : Bool) (run : List (Datum (Quantity F))) (sp : StateSpec F)
+    (h : a2sSpec chk run = .ok (some sp)) :
+    ∃ dn, run.getLast? = some dn ∧ sp.time = dn.time ∧ sp.acc = dn.value := by
+  unfold a2sSpec at h
+  rw [← List.head?_reverse]
+  match hrr : run.reverse with
+  | [] => rw [hrr] at h; cases h
+  | o :: rest =>
+    rw [hrr, a2sSpecRev] at h
+    refine ⟨o, rfl, ?_⟩
+    split at h
+    · cases h
+    · split at h
+      · cases h
+      · split at h
+        · cases h; exact ⟨rfl, rfl⟩
+        · cases h
+
+/-- **absent until three samples since the last error** -/
+theorem a2s_absent_until (chk : Bool) (evs : List (Output (Quantity F))) (s : Option (A2sU0 F))
+    (h : runE (A2s.step chk) A2s.init evs = .ok s) (hlen : (lastRunIgnoringAbsent evs).length < 3) :
+    A2s.get chk s = .ok (.ok none) := by
+  obtain ⟨r, hr, hg⟩ := a2s_eq_spec chk evs s h
+  rw [hg, a2sSpec_short chk _ r hlen hr]; rfl
+
+/-- **output time = newest sample's time** -/
+theorem a2s_time_newest (chk : Bool) (evs : List (Output (Quantity F))) (s : Option (A2sU0 F))
+    (h : runE (A2s.step chk) A2s.init evs = .ok s) (d : Datum (State F))
+    (hg : A2s.get chk s = .ok (.ok (some d))) :
+    ∃ dn, (lastRunIgnoringAbsent evs).getLast? = some dn ∧ d.time = dn.time := by
+  obtain ⟨r, hr, hg'⟩ := a2s_eq_spec chk evs s h
+  rw [hg] at hg'
+  cases r with
+  | none => cases hg'
+  | some sp =>
+    obtain ⟨dn, h1, h2, _⟩ := a2sSpec_time_newest chk _ sp hr
+    refine ⟨dn, h1, ?_⟩
+    simp only [stateOut] at hg'
+    split at hg'
+    · cases hg'
+    · cases hg'; exact h2
+
+/-- an error event is returned by `update` (and resets); everything else returns `Ok(())` -/
+theorem a2s_update_ret (chk : Bool) (s s' : Option (A2sU0 F)) (e : Output (Quantity F)) (r : UpdRet)
+    (h : A2s.step chk s e = .ok (s', r)) :
+    r = updRetOf e := by
+  revert h
+  match e with
+  | .error x => intro h; simp only [A2s.step, Except.ok.injEq, Prod.mk.injEq] at h; exact h.2.symm
+  | .ok none => intro h; simp only [A2s.step, Except.ok.injEq, Prod.mk.injEq] at h; exact h.2.symm
+  | .ok (some d) =>
+    intro h
+    simp only [A2s.step] at h
+    repeat' split at h
+    all_goals (cases h <;> rfl)
+
+/-- after an error event the converter is reset and `get` is absent (the error is not cached) -/
+theorem a2s_error_resets (chk : Bool) (s : Option (A2sU0 F)) (x : Err) :
+    A2s.step chk s (.error x) = .ok (none, .error x) ∧ A2s.get chk (none : Option (A2sU0 F)) = .ok (.ok none) :=
+  ⟨rfl, rfl⟩
 
 end S
 
